@@ -28,7 +28,7 @@ ASSUMPTIONS = ["reference laws as in C11 with the documented parameter order: ga
                "exact binomial per bin, alpha = 1e-10 / (bins x cases), a rejection must repeat with an independent seed and twice the sample; "
                "tolerance band for the integer-sampled Schulz-Zimm density"]
 
-SIZES = {"quick": {"cases": 48, "n": 600}, "thorough": {"cases": 640, "n": 4000}}
+SIZES = {"quick": {"cases": 48, "n": 600}, "thorough": {"cases": 240, "n": 3000}}
 def _unit(txt):
     import re
     from rdkit import Chem
